@@ -88,7 +88,7 @@ let run_model c =
   let delay = int_of_string (opt c "delay" "2") and desc = int_of_string (opt c "desc" "1") in
   let entry = int_of_string (opt c "entry" "0") in
   let use_asm = c.asm <> [] in
-  match build0 (p_graph c.prog) (nat_of_int 0) with
+  match wto_build (p_graph c.prog) (nat_of_int 0) with
   | None -> None
   | Some w -> fwd_run c.prog w (nat_of_int entry) (nat_of_int delay) (nat_of_int desc) use_asm (asm_fun c) (nat_of_int 400) c.init
 let eval toks =
@@ -99,8 +99,70 @@ let eval toks =
     let out = String.concat " ; " (List.init c.nb (fun i ->
         "pre=" ^ show_state c.nv (e.e_pre (nat_of_int i)) ^ " post=" ^ show_state c.nv (e.e_post (nat_of_int i)))) in
     let entry = int_of_string (opt c "entry" "0") in
+    let out =
+      if opt c "check" "0" = "1" then begin
+        let na = int_of_string (opt c "nasserts" "0") in
+        let verdicts = List.concat (List.mapi (fun i b -> check_block b (e.e_pre (nat_of_int i))) c.prog.p_blocks) in
+        let letter = function VSafe -> "S" | VWarn -> "W" | VUnreach -> "U" in
+        out ^ " ; checks=" ^ String.concat "" (List.init na (fun k ->
+            let id = k + 1 in
+            match List.filter (fun (i, _) -> int_of_nat i = id) verdicts with
+            | [] -> "-"
+            | l -> String.concat "" (List.map (fun (_, v) -> letter v) l) ^ ","))
+      end else out in
     if fwd_check c.prog (nat_of_int entry) (c.asm <> []) (asm_fun c) c.init e.e_pre e.e_post then out
     else out ^ " MODEL-NOT-INDUCTIVE"
+(* backward analysis: forward invariants (model of C01), then the engine on the reversed CFG *)
+let parse_final toks =
+  List.fold_left (fun acc sec -> match sec with
+      | "G" :: l -> let k = { t = Array.of_list l; p = 0 } in let cs = ref [] in while more k do cs := !cs @ [parse_cst k] done; d_add !cs acc
+      | _ -> acc) e_top (split_on "|" toks)
+let bwd_setup toks =
+  let c = parse_case toks in
+  let exit_block = (match toks with _ :: _ :: _ :: ex :: _ -> int_of_string ex | _ -> -1) in
+  let good = opt c "mode" "error" = "good" in
+  let final = if good then parse_final toks else EBot in
+  let use_fwd = opt c "fwd" "1" = "1" in
+  let fresh = n_of_int (c.nv + 1000) in
+  (c, exit_block, good, final, use_fwd, fresh)
+let fwd_invs c use_fwd =
+  if not use_fwd then Some (fun _ -> e_top) else
+    match wto_build (p_graph c.prog) (nat_of_int 0) with
+    | None -> None
+    | Some w ->
+      let delay = int_of_string (opt c "delay" "2") and desc = int_of_string (opt c "desc" "1") in
+      (match fwd_run c.prog w (nat_of_int 0) (nat_of_int delay) (nat_of_int desc) false (fun _ -> None) (nat_of_int 400) e_top with
+       | None -> None | Some e -> Some e.e_pre)
+let eval_bwd toks =
+  let (c, exit_block, good, final, use_fwd, fresh) = bwd_setup toks in
+  match fwd_invs c use_fwd with
+  | None -> "MODEL-ERROR fwd"
+  | Some finv ->
+    (match wto_build (p_rev_graph c.prog) (nat_of_int exit_block) with
+     | None -> "MODEL-ERROR wto"
+     | Some wrev ->
+       let delay = int_of_string (opt c "delay" "2") and desc = int_of_string (opt c "desc" "1") in
+       (match bwd_run c.prog wrev (nat_of_int exit_block) (nat_of_int delay) (nat_of_int desc) (nat_of_int 400) fresh good finv final with
+        | None -> "MODEL-ERROR out-of-fuel"
+        | Some pc ->
+          let out = String.concat " ; " (List.init c.nb (fun i ->
+              "finv=" ^ show_state c.nv (finv (nat_of_int i)) ^ " pre=" ^ show_state c.nv (pc (nat_of_int i)))) in
+          if opt c "bwdcheck" "1" = "0" || bwd_inductive_ok c.prog fresh good (nat_of_int exit_block) final finv pc then out
+          else out ^ " MODEL-NOT-BWD-INDUCTIVE"))
+let validate_bwd toks answer =
+  let (c, exit_block, good, final, _, fresh) = bwd_setup toks in
+  let parts = List.filter (fun s -> s <> "") (List.map String.trim (Str.split (Str.regexp_string " ; ") answer)) in
+  let tabs = List.filter_map (fun p ->
+      if String.length p > 5 && String.sub p 0 5 = "finv=" then begin
+        match Str.bounded_split (Str.regexp_string " pre=") (String.sub p 5 (String.length p - 5)) 2 with
+        | [a; b] -> Some (state_of_string a, state_of_string b)
+        | _ -> None end else None) parts in
+  if List.length tabs <> c.nb then "unparsable" else begin
+    let arr = Array.of_list tabs in
+    let finv n = let i = int_of_nat n in if i < c.nb then fst arr.(i) else e_top in
+    let pc n = let i = int_of_nat n in if i < c.nb then snd arr.(i) else e_top in
+    if bwd_inductive_ok c.prog fresh good (nat_of_int exit_block) final finv pc then "ok" else "FAIL"
+  end
 (* validate the implementation's tables with the verified checker *)
 let validate toks answer =
   let c = parse_case toks in
@@ -122,12 +184,13 @@ let () =
   let file = List.nth args (List.length args - 1) in
   let lines = read_lines file in
   let vmode = List.mem "--validate" args in
+  let bmode = List.mem "--bwd" args in
   List.iteri (fun i l ->
       let r = try
           if vmode then begin
             match Str.bounded_split (Str.regexp_string " ### ") l 2 with
-            | [c; a] -> validate (split_ws c) a
+            | [c; a] -> if bmode then validate_bwd (split_ws c) a else validate (split_ws c) a
             | _ -> "unparsable"
-          end else eval (split_ws l)
+          end else if bmode then eval_bwd (split_ws l) else eval (split_ws l)
         with Failure m -> "MODEL-ERROR " ^ m | Not_found -> "MODEL-ERROR notfound" | Invalid_argument m -> "MODEL-ERROR " ^ m in
       print_string ("R " ^ string_of_int i ^ " " ^ r ^ "\n")) lines
